@@ -264,6 +264,35 @@ def step (d : DSt) (w : List String) : DSt × String :=
     let (s', res) := restart (codecs d) d.cfg d.st
     let d' := { d with st := s' }
     (d', showState d' d.st (showRes res))
+  | "restartg" :: r =>
+    -- Executer.Init on the existing database with other start-up inputs (harness/c04 `restartg`):
+    -- v=genesis: a foreign genesis block (id `gid`, height `gh`) - the previous inputs stay in effect
+    -- afterwards; v=cfg: block cache size / event retention changed from now on; v=chainid: nothing the
+    -- database knows about changes
+    match arg r "v" with
+    | some "genesis" =>
+      match hexA r "gid", natArg r "gh" with
+      | some gid, some gh =>
+        let g : Block := { hdr := { version := 0, height := gh, generatorAddress := [], maxHeightGenerated := 0,
+                                     maxHeightPrevoted := 0, id := gid, previousBlockID := [], timestamp := 0 },
+                           hdrBytes := [], txs := [], assets := [] }
+        let (s', res) := restartG (codecs d) d.cfg d.st g emptyExec
+        let d' := { d with st := s' }
+        (d', showState d' d.st (showRes res))
+      | _, _ => bad
+    | some "cfg" =>
+      match natArg r "cache", (arg r "keep").bind String.toInt? with
+      | some cache, some keep =>
+        let cfg : Cfg := { d.cfg with maxCache := cache, keepEvents := keep }
+        let (s', res) := restart (codecs d) cfg d.st
+        let d' := { d with st := s', cfg := cfg }
+        (d', showState d' d.st (showRes res))
+      | _, _ => bad
+    | some "chainid" =>
+      let (s', res) := restart (codecs d) d.cfg d.st
+      let d' := { d with st := s' }
+      (d', showState d' d.st (showRes res))
+    | _ => bad
   | ["sctx"] =>
     -- Executer.createSyncContext: the finalized block header the synchronisers get
     match d.st.cache with
